@@ -704,16 +704,12 @@ func annotatedBodyDefect(w *WorldDesc, msgFQ string, body []byte) string {
 		if kind == "string" {
 			_ = json.Unmarshal(t, &str)
 		}
+		// "possibly a number": protojson itself reads a number token from a string and does not
+		// insist on end of input ("105023:" is accepted as 105023 for a plain int64 field), so
+		// only strings with no leading number token at all count as undecodable
 		isInt := func(s string) bool {
-			if s == "" {
-				return false
-			}
-			for i, c := range s {
-				if (c < '0' || c > '9') && !(i == 0 && c == '-') {
-					return false
-				}
-			}
-			return true
+			t := strings.TrimPrefix(s, "-")
+			return t != "" && t[0] >= '0' && t[0] <= '9'
 		}
 		bad := func(what string) string {
 			return fmt.Sprintf("field %s.%s (%s) holds JSON %s %s", sm.Name, f.Name, what, kind, truncBytes(t))
